@@ -7,6 +7,7 @@ from .. import paths
 from ..core import FUNC, call_attr, calls_in, const, dotted, is_const, kwarg, norm, slice_parts, text, walk_local
 
 EXPLANATION = [
+    'C14.reject-then-leave: when the SMP session rejects a peer value (e.g. a public key that is not on the curve) it stops: no key is derived and nothing more is sent on that path (same rule as C13.fail-then-leave).',
     'C14.scalar-mult: the built-in double-and-add loop runs until the scalar is exhausted (or for at least bit_length(group order) iterations) and its body is one conditional add on the low bit, one doubling, one one-bit shift.',
     'C14.curve: the P-256 parameters in the built-in back end equal the NIST values and the generator satisfies the curve equation.',
     'C14.aes-tables: the AES S-box equals FIPS-197 (recomputed in the checker from the field inverse and affine map), S_INV is its '
@@ -397,7 +398,13 @@ def scalar_mult(ctx):
     R.check('addend = self' in init and any(x.startswith('result = ') and 'point_at_infinity' in x for x in init), rule, key + ' | start values', 'addend = self, result = point at infinity', 'start values of the multiplication changed', p.loc(fn))
 
 
+def reject_then_leave(ctx):
+    from . import c13
+    c13.fail_then_leave(ctx, rule='C14.reject-then-leave')
+
+
 RULES = [
+    ('C14.reject-then-leave', reject_then_leave),
     ('C14.scalar-mult', scalar_mult),
     ('C14.curve', curve),
     ('C14.aes-tables', aes_tables),
